@@ -497,6 +497,8 @@ class C04(Oracle):
                 return
             if st.extra.get('reset') and i == st.dest:
                 continue
+            if 'selfreset_at' in st.extra and i == st.dest:
+                continue        # its own callback reset it during the write (fault F8)
             if any(n.extra.get('reset') and n.dest == i for n in all_nested(st)):
                 continue
             ps = status_dict(pre['status'])
@@ -700,7 +702,27 @@ class C04(Oracle):
             now = {'overflow': ovf_now, 'underflow': udf_now, 'inaccuracy': inacc_now}
             if inner is not None:
                 w.bump('c04_selfwrite_judged')
+            sr = st.extra.get('selfreset_at')
+            if sr is not None and not aborted:
+                # reset() ran inside this write: what was raised before it is gone, but a condition
+                # whose notification ROUND started after the reset (observed order, none assumed; the
+                # other callbacks of the round in which the reset happened are still being told about a
+                # flag raised before it) was raised after it, and nothing lowered it since: that flag
+                # must be up now
+                w.bump('c04_selfreset_judged')
+                for (c, site, k) in st.cb_events[sr:]:
+                    f = site[len('on_status_'):] if site.startswith('on_status_') else None
+                    if site == st.extra.get('selfreset_site'):
+                        continue
+                    if f in FLAGS and k == st.dest and now[f] and not post[f]:
+                        w.violation('C04', 'flag-' + f, st,
+                                    {'flag': f, 'after': post[f], 'what': 'raised after an in-write reset(), yet down at the end',
+                                     'events_after_reset': [e[1] for e in st.cb_events[sr:]],
+                                     'fmt': [s, nw, nf], 'input': [str(v) for v in vals[1]][:6]}, culprit)
+                        return
             for f in FLAGS:
+                if sr is not None:
+                    break
                 want = pflags.get(f, False) or now[f] or bool(inner and inner[f])
                 if f == 'inaccuracy' and prop_inacc:
                     want = True
@@ -747,6 +769,8 @@ class C04(Oracle):
         else:
             # only the one-directional rules
             for f in FLAGS:
+                if 'selfreset_at' in st.extra:
+                    break
                 if pflags.get(f, False) and not post[f]:
                     w.violation('C04', 'flag-lowered', st, {'flag': f, 'slot': st.dest}, culprit)
                     return
